@@ -4,7 +4,45 @@
 //! 1 = round trip differs.
 use std::process::ExitCode;
 
+/// `parse <text> err` or `parse <text> <start> <end> <stride>`: the public `cpulist::parse` on one
+/// range text must give an error resp. exactly the progression start, start+stride, .. <= end.
+fn parse_mode(args: &[String]) -> ExitCode {
+    let text = &args[1];
+    let got = cpulist::parse(text);
+    if args[2] == "err" {
+        return match got {
+            Err(_) => ExitCode::SUCCESS,
+            Ok(v) => {
+                eprintln!("parse({text:?}) returned {} ids, expected an error", v.len());
+                ExitCode::from(1)
+            }
+        };
+    }
+    let (start, end, stride): (u64, u64, u64) = (args[2].parse().unwrap(), args[3].parse().unwrap(), args[4].parse().unwrap());
+    let mut expect = Vec::new();
+    let mut x = start;
+    while x <= end {
+        expect.push(u32::try_from(x).expect("u32"));
+        x += stride;
+    }
+    match got {
+        Ok(v) if v == expect => ExitCode::SUCCESS,
+        Ok(v) => {
+            eprintln!("parse({text:?}) returned {v:?}, expected {expect:?}");
+            ExitCode::from(1)
+        }
+        Err(e) => {
+            eprintln!("parse({text:?}) failed ({e}), expected {expect:?}");
+            ExitCode::from(1)
+        }
+    }
+}
+
 fn main() -> ExitCode {
+    let raw: Vec<String> = std::env::args().skip(1).collect();
+    if raw.first().map(String::as_str) == Some("parse") {
+        return parse_mode(&raw);
+    }
     let args: Vec<u32> = std::env::args()
         .skip(1)
         .map(|a| a.parse().expect("u32 argument"))
